@@ -351,15 +351,118 @@ def main(argv=None):
         for i, c in enumerate(cases):
             results[i] = _run_case((i, c))
     else:
-        with ctx.Pool(jobs, initializer=_winit, initargs=(modname, timeout)) as pool:
-            for r in pool.imap_unordered(_run_case, list(enumerate(cases)), chunksize=chunk):
-                results[r["idx"]] = r
+        results = _run_parallel(modname, timeout, cases, jobs)
 
     if args.serial or jobs == 1:
         # restore stdout (fd 1 was redirected in _winit only when not verbose) -- we wrote nothing yet
         pass
 
     return report(mod, modname, pid, tier, seed, cases, results, findings, timeout, capped, t_start)
+
+
+def _worker_main(conn, modname, timeout):
+    try:
+        _winit(modname, timeout)
+        while True:
+            try:
+                msg = conn.recv()
+            except EOFError:
+                break
+            if msg is None:
+                break
+            conn.send(_run_case(msg))
+    finally:
+        os._exit(0)
+
+
+def _run_parallel(modname, timeout, cases, jobs):
+    """own scheduler instead of multiprocessing.Pool: a worker that dies (segfault in a C extension, OOM kill) or hangs in C
+    code does not hang the run.  The case a dead worker was executing is retried once in a fresh worker; a second death is
+    reported (harness_error with the exit code: the verdict of such a run is BROKEN, never silently 'held')."""
+    import collections
+    from multiprocessing.connection import wait
+
+    ctx = mp.get_context("fork")
+    n = len(cases)
+    results = [None] * n
+    pending = collections.deque(enumerate(cases))
+    deaths = {}
+    workers = {}  # parent conn -> dict(proc, task, since)
+    hard = 2.0 * float(timeout) + 120.0
+
+    def spawn():
+        parent, child = ctx.Pipe()
+        p = ctx.Process(target=_worker_main, args=(child, modname, timeout), daemon=True)
+        p.start()
+        child.close()
+        workers[parent] = {"proc": p, "task": None, "since": 0.0}
+
+    def lost(conn, why):
+        w = workers.pop(conn)
+        task = w["task"]
+        try:
+            conn.close()
+        except Exception:
+            pass
+        if w["proc"].is_alive():
+            w["proc"].kill()
+        w["proc"].join(10)
+        if task is not None:
+            idx = task[0]
+            deaths[idx] = deaths.get(idx, 0) + 1
+            if why == "hard_timeout":
+                results[idx] = {"idx": idx, "fails": [], "aborted": "timeout", "nontrivial": False, "wall": time.time() - w["since"]}
+            elif deaths[idx] <= 1:
+                pending.appendleft(task)
+            else:
+                results[idx] = {"idx": idx, "fails": [], "nontrivial": False, "wall": 0.0,
+                                "harness_error": f"worker process died twice (exit code {w['proc'].exitcode}) while executing this case"}
+        spawn()
+
+    for _ in range(jobs):
+        spawn()
+    try:
+        while True:
+            for conn, w in list(workers.items()):
+                if w["task"] is None and pending:
+                    task = pending.popleft()
+                    try:
+                        conn.send(task)
+                        w["task"], w["since"] = task, time.time()
+                    except (BrokenPipeError, OSError):
+                        pending.appendleft(task)
+                        lost(conn, "died")
+            busy = [c for c, w in workers.items() if w["task"] is not None]
+            if not busy and not pending:
+                break
+            ready = wait(busy + [workers[c]["proc"].sentinel for c in busy], timeout=5.0)
+            for conn in busy:
+                w = workers.get(conn)
+                if w is None:
+                    continue
+                if conn in ready or conn.poll():
+                    try:
+                        r = conn.recv()
+                        results[r["idx"]] = r
+                        w["task"] = None
+                    except (EOFError, ConnectionResetError, OSError):
+                        lost(conn, "died")
+                elif w["proc"].sentinel in ready or not w["proc"].is_alive():
+                    lost(conn, "died")
+                elif time.time() - w["since"] > hard:
+                    lost(conn, "hard_timeout")
+    finally:
+        for conn, w in list(workers.items()):
+            try:
+                conn.send(None)
+                conn.close()
+            except Exception:
+                pass
+        for w in list(workers.values()):
+            w["proc"].join(2)
+            if w["proc"].is_alive():
+                w["proc"].kill()
+    return results
 
 
 def _out(msg):
